@@ -168,6 +168,31 @@ fn programs<'b>(ctx: &types::Context<'b>, depth: usize) -> Vec<(String, N<'b>)> 
             }
         }
     }
+    // compositions inside expressions (intermediate frames that are allocated, dropped and reused)
+    for (n, e) in sub.iter().take(8) {
+        for (m, f) in sub.iter().take(8) {
+            if let Ok(x) = N::comp(e, f) {
+                out.push((format!("comp ({}) ({})", n, m), x));
+            }
+        }
+    }
+    // nested compositions (frames over zero-width intermediate types count as frames but not as cells)
+    if depth >= 2 {
+        let unit = N::unit(ctx);
+        for (n, e) in sub.iter().filter(|(n, _)| n.starts_with("comp")).take(10) {
+            if let Ok(x) = N::comp(e, &unit) {
+                if let Ok(y) = N::comp(&x, &unit) {
+                    out.push((format!("comp (comp ({}) unit) unit", n), y.clone()));
+                    if let Ok(z) = N::pair(&unit, &y) {
+                        out.push((format!("pair unit (comp (comp ({}) unit) unit)", n), z));
+                    }
+                    if let Ok(z) = N::pair(&y, &unit) {
+                        out.push((format!("pair (comp (comp ({}) unit) unit) unit", n), z));
+                    }
+                }
+            }
+        }
+    }
     // the sum eliminators: case over (iden-projections) of the two branches
     for (n, e) in sub.iter().take(6) {
         for (m, f) in sub.iter().take(6) {
@@ -222,6 +247,14 @@ fn c05_machine_semantics_replay() {
             shapes.push((5, i, j));
         }
     }
+    // frame reuse: two compositions side by side - the second one's intermediate frame reuses the cells of the first
+    for i in 0..n_leaf.min(48) {
+        for j in 0..n_leaf.min(48) {
+            if (i + j) % 2 == 0 || i < 12 || j < 12 {
+                shapes.push((6, i, j));
+            }
+        }
+    }
     for (kind, i, j) in shapes {
         types::Context::with_context(|ctx| {
             let ps = programs(&ctx, 2);
@@ -234,6 +267,19 @@ fn c05_machine_semantics_replay() {
                 },
                 1 => match N::comp(&ps[i].1, &ps[j].1) {
                     Ok(c) => (format!("comp ({}) ({})", ps[i].0, ps[j].0), c),
+                    Err(_) => return,
+                },
+                6 => match N::pair(
+                    &match N::comp(&ps[i].1, &N::iden(&ctx)) {
+                        Ok(c) => c,
+                        Err(_) => return,
+                    },
+                    &match N::comp(&ps[j].1, &N::iden(&ctx)) {
+                        Ok(c) => c,
+                        Err(_) => return,
+                    },
+                ) {
+                    Ok(c) => (format!("pair (comp ({}) iden) (comp ({}) iden)", ps[i].0, ps[j].0), c),
                     Err(_) => return,
                 },
                 4 => {
